@@ -227,7 +227,10 @@ func runC30(t *testing.T, tape *simrt.Tape, env dst.Env) *simrt.Outcome {
 			storedKey = w.freshKey()
 			d := &session.Data{DC: storedDC, AuthKey: append([]byte(nil), storedKey.Value[:]...), AuthKeyID: append([]byte(nil), storedKey.ID[:]...), Salt: 77}
 			if stored == 3 {
-				switch tape.Choose(simrt.Fault, 6) {
+				switch tape.Choose(simrt.Fault, 7) {
+				case 6:
+					d.AuthKey, d.AuthKeyID = make([]byte, 256), make([]byte, 8)
+					corruptWhat = "key and key id both wiped (all zero)"
 				case 4:
 					d.AuthKey = make([]byte, 256)
 					corruptWhat = "key bytes wiped (all zero), key id kept"
